@@ -17,7 +17,10 @@
    Exactly as the Go text does it:
      Unmarshal: st.inner = &Slim{} FIRST; on any error return - vars and levels
        are NOT touched (they stay stale); on success inner/vars/levels are all
-       replaced.
+       replaced.  One error leaves more than the empty message behind: when the
+       body was read completely and proto.Unmarshal rejects it, the fields
+       decoded before the bad one are already assigned to st.inner.  That state
+       is [IPartial]: explicitly unknown to this model.
      Reset: inner = &Slim{}, vars = nil, levels = [{0,0,0,nil}]. *)
 From Coq Require Import List NArith Bool.
 From Coq.Strings Require Import Byte.
@@ -34,22 +37,26 @@ Section Instance.
   Variable conv510 : slim -> slim.
   Variable conv3 : list byte -> list byte -> list byte -> slim.
 
+  Inductive inner_state :=
+  | IMsg (m : slim)
+  | IPartial.       (* a rejected protobuf body, decoded up to the error *)
+
   Record inst := mkInst {
-    i_inner : slim;
+    i_inner : inner_state;
     i_vars : option Vars;          (* None: nil pointer (after Reset) *)
     i_levels : Levels
   }.
 
   Inductive op := OpUnmarshal (b : list byte) | OpReset.
 
-  Definition installed (m : slim) : inst := mkInst m (Some (init_vars m)) (init_levels m).
+  Definition installed (m : slim) : inst := mkInst (IMsg m) (Some (init_vars m)) (init_levels m).
 
   (* NewSlimTrie(e, nil, nil): inner = empty message; st.init() *)
   Definition fresh : inst := installed empty_slim.
 
   Definition step (st : inst) (o : op) : inst * option outcome :=
     match o with
-    | OpReset => (mkInst empty_slim None reset_levels, None)
+    | OpReset => (mkInst (IMsg empty_slim) None reset_levels, None)
     | OpUnmarshal b =>
       let out := unmarshal compat cur b in
       let st' :=
@@ -57,10 +64,11 @@ Section Instance.
           | OLoaded m => installed m
           | OLegacy510 m => installed (conv510 m)
           | OLegacy3 c s l => installed (conv3 c s l)
+          | OErr SInner CProto => mkInst IPartial (i_vars st) (i_levels st)
           | OErr _ _ | OIncompatible | OPanic | OUnmodelled =>
             (* st.inner = &Slim{} happened before the failure; nothing else was written.
                (OPanic: the panic leaves the same state behind; OUnmodelled: no claim) *)
-            mkInst empty_slim (i_vars st) (i_levels st)
+            mkInst (IMsg empty_slim) (i_vars st) (i_levels st)
           end in
       (st', Some out)
     end.
